@@ -228,9 +228,22 @@ def gen_random(ctx):
         ctx.count(key=case["root"], nontrivial=k >= 3, classes=["random:gapdeg=%d" % min(3, M.tree_gapdeg(case["root"]))])
         if k >= 5:
             ctx.sample(case["root"], cap=1)
-    strategy = st.builds(lambda tree, edit: dict(tree, edit=edit), S.tree_model(max_tokens=12 if quick else 16, disc=0.6), st.one_of(st.none(), st.integers(0, 50)))
+    strategy = st.builds(lambda tree, edit: dict(tree, edit=edit), S.tree_model(max_tokens=12 if quick else 16, disc=0.6, labels=st.sampled_from(["S", "NP", "VP", "PP", "AP", "VROOT"])), st.one_of(st.none(), st.integers(0, 50)))
     ctx.hyp(strategy, body, max_examples=600 if quick else 4000)
 
 
+def gen_long(ctx):
+    """sentences with more than a hundred tokens (three-digit token numbers, leftmost tokens more than 100 apart)"""
+    from vlib import shapes
+    for name, case in shapes.long_sentences():
+        try:
+            ctx.run_case(check, dict(case, edit=None))
+        except Violation as vio:
+            ctx.record(vio)
+        ctx.count(key=name, nontrivial=True, classes=["long:" + name])
+        ctx.sample({"shape": name, "tokens": len(M.toks(case["root"]))}, cap=3)
+
+
 UNITS = [Unit("enum", gen_enum, check, shards=(6, 16)),
-         Unit("random", gen_random, check, shards=(2, 8))]
+         Unit("random", gen_random, check, shards=(2, 8)),
+         Unit("long_sentences", gen_long, check, shards=(1, 1))]
